@@ -218,6 +218,34 @@ func enumPackets(x *core.Ctx, k int, types []byte, fn func(c *pcase)) {
 type numSite struct {
 	name string
 	set  func(p *spec.Packet, v uint32)
+	bits int // 16, 28 (variable byte integer) or 32
+}
+
+// denseIntValues: the values a numeric field is swept over: 0..300; every
+// byte value at every byte position with the other bytes zero (a value
+// whose second byte is 0x21 looks like a property identifier to a scanner
+// that lost its place); for the packet identifier all 65 536 values.
+func denseIntValues(s numSite) []uint32 {
+	var out []uint32
+	for v := uint32(0); v <= 300; v++ {
+		out = append(out, v)
+	}
+	if s.name == "packetid" {
+		for v := uint32(301); v <= 0xffff; v++ {
+			out = append(out, v)
+		}
+		return out
+	}
+	for pos := 0; pos*8 < s.bits; pos++ {
+		for b := uint32(1); b < 256; b++ {
+			v := b << (8 * uint(pos))
+			if v <= 300 || (s.bits == 28 && v > 268435455) {
+				continue
+			}
+			out = append(out, v)
+		}
+	}
+	return out
 }
 
 // numericSites lists the numeric fields present in p (zero values that are
@@ -225,7 +253,7 @@ type numSite struct {
 func numericSites(p *spec.Packet) []numSite {
 	var out []numSite
 	if p.Type == 1 {
-		out = append(out, numSite{"keepalive", func(p *spec.Packet, v uint32) { p.KeepAlive = uint16(v) }})
+		out = append(out, numSite{"keepalive", func(p *spec.Packet, v uint32) { p.KeepAlive = uint16(v) }, 16})
 	}
 	switch p.Type {
 	case 3, 4, 5, 6, 7, 8, 9, 10, 11:
@@ -234,7 +262,7 @@ func numericSites(p *spec.Packet) []numSite {
 				v = 1
 			}
 			p.PacketID = uint16(v)
-		}})
+		}, 16})
 	}
 	add := func(prefix string, get func(p *spec.Packet) []spec.Prop) {
 		for i, pr := range get(p) {
@@ -249,7 +277,7 @@ func numericSites(p *spec.Packet) []numSite {
 					v = 1
 				}
 				get(p)[i].N = v
-			}})
+			}, map[spec.PropKind]int{spec.KindU16: 16, spec.KindU32: 32, spec.KindVarint: 28}[kind]})
 		}
 	}
 	add("", func(p *spec.Packet) []spec.Prop { return p.Props })
@@ -464,9 +492,9 @@ func enumDense(x *core.Ctx, types []byte, odd bool, fn func(c *pcase)) {
 		}
 		// every numeric field at every value 0..300 (thresholds that relate a
 		// numeric field to a size or a count sit among ordinary values)
-		for si := range numericSites(denseBase(t, 0)) {
-			for v := 0; v <= 300; v++ {
-				if !emit("S5.dense.int", t, "int", si, v) {
+		for si, site := range numericSites(denseBase(t, 0)) {
+			for _, v := range denseIntValues(site) {
+				if !emit("S5.dense.int", t, "int", si, int(v)) {
 					return
 				}
 			}
